@@ -176,7 +176,7 @@ var intrinsicNames = map[string]bool{
 	"vRequires": true, "vEnsures": true, "vAssert": true, "vAssume": true, "vForall": true, "vExists": true,
 	"vSameRegion": true, "vOffset": true, "vModifiesBytes": true, "vModifiesAll": true, "vFresh": true,
 	"vCanary": true, "vAllocs": true, "vUnreachable": true, "vModifiesObj": true, "vNoAlias": true, "vOpaque": true,
-	"vModifiesNothing": true, "vBorrowed": true, "vIsFreshRegion": true, "vModifiesHeap": true, "vStrictLen": true, "vAtEntry": true, "vKeptOrNew": true, "vWireCount": true, "vWireLast": true, "vModifiesWire": true, "vFuel": true, "vModifiesMems": true, "vReveal": true, "vModifiesField": true, "vMapAll": true,
+	"vModifiesNothing": true, "vBorrowed": true, "vIsFreshRegion": true, "vModifiesHeap": true, "vStrictLen": true, "vAtEntry": true, "vKeptOrNew": true, "vWireCount": true, "vWireLast": true, "vModifiesWire": true, "vFuel": true, "vModifiesMems": true, "vReveal": true, "vModifiesField": true, "vMapAll": true, "vWireEach": true,
 }
 
 // intrinsicName: the name of an intrinsic, with generic instantiations mapped to their origin.
@@ -296,7 +296,15 @@ func (e *Engine) abstractPolicy(fr *Frame, callee *ssa.Function) string {
 		return ""
 	}
 	switch to {
-	case "net/netip", "encoding/binary", "math/bits", "internal/byteorder":
+	case "net/netip":
+		// text conversion and parsing: loops over digits, irrelevant to the modelled state
+		switch callee.Name() {
+		case "String", "AppendTo", "MarshalText", "MarshalBinary", "appendTo4", "appendTo6", "string4", "string6", "StringExpanded",
+			"ParseAddr", "MustParseAddr", "ParsePrefix", "MustParsePrefix", "ParseAddrPort", "MustParseAddrPort", "parseIPv4", "parseIPv6":
+			return fmt.Sprintf("%s.%s abstracted (text conversion: assumed total, arbitrary result)", to, fnName2(callee))
+		}
+		return ""
+	case "encoding/binary", "math/bits", "internal/byteorder":
 		return ""
 	}
 	return fmt.Sprintf("%s.%s abstracted (outside the repository: assumed total, no effect on modelled state, arbitrary result)", to, fnName2(callee))
@@ -319,7 +327,27 @@ func (e *Engine) applyContract(fr *Frame, st *State, harness, target *ssa.Functi
 	nf.prefix = fr.prefix
 	hc := &harnessCtx{mode: modeApply, caller: fr, site: site, target: target, name: harness.Name()}
 	nf.hctx = hc
+	// extra parameters of a contract harness are universally quantified inputs ("for every other
+	// key ..."): at a call site they are arbitrary
+	for i := len(args); i < len(harness.Params); i++ {
+		t := harness.Params[i].Type()
+		ts := freshTerms("contract.extra", t)
+		st.assume(wfAssumptions(ts, t, false))
+		args = append(args[:len(args):len(args)], e.unflat(ts, t))
+	}
+	var wireBefore *Term
+	if e.wireEach != nil {
+		wireBefore = e.ghostGet(st, "wire.count", IntSort)
+	}
 	vals := e.finishCall(fr, st, nf, args, site)
+	if wireBefore != nil {
+		for _, m := range hc.modifies {
+			if m.kind == "wire" || m.kind == "all" {
+				e.checkWireEach(fr, st, wireBefore, site)
+				break
+			}
+		}
+	}
 	// results pinned by the postcondition (r.off == p.off, len(r) == 20+len(b), ...)
 	// are replaced by the pinning term, so that later address arithmetic is syntactic
 	if len(hc.subst) > 0 {
@@ -619,6 +647,16 @@ func (e *Engine) intrinsic(fr *Frame, st *State, callee *ssa.Function, args []Va
 			unsup("vAtEntry value not recorded at loop entry")
 		}
 		return []Value{scalar(v)}
+	case "vWireEach":
+		// every frame handed to the connection from here on satisfies the predicate,
+		// evaluated in the state at the moment of the send
+		if args[0].C == nil {
+			unsup("vWireEach needs a function literal")
+		}
+		if h != nil && h.mode == modeVerify {
+			e.wireEach = args[0].C
+		}
+		return nil
 	case "vWireCount":
 		return []Value{scalar(e.ghostGet(st, "wire.count", IntSort))}
 	case "vWireLast":
@@ -1368,10 +1406,41 @@ func (e *Engine) ghostGet(st *State, name string, s Sort) *Term {
 }
 
 // wireSend records a frame handed to the session connection.
-func (e *Engine) wireSend(st *State, frame []*Term) {
+func (e *Engine) wireSend(fr *Frame, st *State, frame []*Term, site ssa.Instruction) {
 	n := e.ghostGet(st, "wire.count", IntSort)
 	st.ghost["wire.count"] = BVAdd(n, BVConst(1, IntSort))
 	st.ghost["wire.r"], st.ghost["wire.o"], st.ghost["wire.l"] = frame[0], frame[1], frame[2]
+	e.checkWireEach(fr, st, nil, site)
+}
+
+// checkWireEach discharges the vWireEach predicate of the harness being verified for the frame
+// just sent (before == nil), or for the at most one frame an applied contract reports
+// (before = the frame count ahead of the call).
+func (e *Engine) checkWireEach(fr *Frame, st *State, before *Term, site ssa.Instruction) {
+	cl := e.wireEach
+	if cl == nil || e.inWireEach {
+		return
+	}
+	e.inWireEach = true
+	defer func() { e.inWireEach = false }()
+	w := Value{T: []*Term{e.ghostGet(st, "wire.r", RegionSort), e.ghostGet(st, "wire.o", IntSort), e.ghostGet(st, "wire.l", IntSort), e.ghostGet(st, "wire.l", IntSort)}}
+	nf := e.newFrame(cl.fn, fr)
+	nf.freevars = cl.bindings
+	nf.spec = true
+	nf.quiet = true
+	nf.prefix = fr.prefix
+	tmp := st.clone()
+	vals := e.finishCall(fr, tmp, nf, []Value{w}, site)
+	st.pc = tmp.pc
+	goal := vals[0].term()
+	if before != nil {
+		now := e.ghostGet(st, "wire.count", IntSort)
+		goal = Or(Eq(now, before), And(Eq(now, BVAdd(before, BVConst(1, IntSort))), goal))
+	}
+	ss, q := fr.spec, fr.quiet
+	fr.spec, fr.quiet = false, false
+	e.oblige(fr, st, "wire-each", site, goal, "frame handed to the connection satisfies the harness's vWireEach predicate")
+	fr.spec, fr.quiet = ss, q
 }
 
 // termSize counts DAG nodes up to a limit.
